@@ -164,12 +164,74 @@ type rtProfile struct {
 	maxRoutes     int
 	literalFanout bool // start with >= 5 literal siblings
 	asciiOnly     bool
+	repeatObs     bool // re-issue the previous observations after every mutation (before/after comparison)
+	syntaxOps     bool // CheckSyntax on every pattern before Handle
+	allowProbes   bool // OPTIONS / unused method / OPTIONS * after every mutation
+	tracePct      int  // percentage of routers with WithTrace (default 25)
+	nProbes       int  // extra probes at the end (default 6..19)
+	noIcpt        bool
+}
+
+// value that is likely to satisfy rule and to avoid the literal bytes of the pattern pool
+func valueFor(r *rand.Rand, rule string) string {
+	switch rule {
+	case "digit", "\\d+", "[0-9]*", "\\d+?":
+		return pick(r, []string{"5", "77", "0", "905"})
+	case "\\d\\d":
+		return pick(r, []string{"77", "90"})
+	case "word", "\\w+", "[a-z]+\\d*":
+		return pick(r, []string{"q", "zz", "k9", "w"})
+	case "[a-z]+":
+		return pick(r, []string{"q", "zz", "w"})
+	case "len2", "even":
+		return pick(r, []string{"77", "zz", "qq"})
+	case "[a-c]+", "a|ab", "(a|b)+", "x?y":
+		return pick(r, []string{"a", "ab", "y", "b"})
+	case "none":
+		return "q"
+	}
+	return pick(r, []string{"5", "77", "q", "zz", "Q9", "w"})
+}
+
+// witness builds a request path from pattern p and returns the values used (by bare name).
+func witness(r *rand.Rand, p string) (path string, kv []string) {
+	var sb strings.Builder
+	for len(p) > 0 {
+		if p[0] == '{' {
+			e := strings.IndexByte(p, '}')
+			if e < 0 {
+				sb.WriteString(p)
+				break
+			}
+			inner := p[1:e]
+			name, rule := inner, ""
+			if c := strings.IndexByte(inner, ':'); c >= 0 {
+				name, rule = inner[:c], inner[c+1:]
+			}
+			name = strings.TrimPrefix(name, "-")
+			v := valueFor(r, rule)
+			kv = append(kv, name, v)
+			sb.WriteString(v)
+			p = p[e+1:]
+		} else {
+			sb.WriteByte(p[0])
+			p = p[1:]
+		}
+	}
+	return sb.String(), kv
 }
 
 func genRT(pr rtProfile) func(r *rand.Rand, w *W) [][]string {
 	return func(r *rand.Rand, w *W) [][]string {
 		ics := pick(r, icptSets)
-		trace := r.Intn(4) == 0
+		tp := pr.tracePct
+		if tp == 0 {
+			tp = 25
+		}
+		trace := r.Intn(100) < tp
+		if pr.noIcpt {
+			ics = nil
+		}
 		domain := pick(r, []string{"", "", "https://example.com", "https://example.com/"})
 		cfg := append([]string{"cfg", b2s(trace), pick(r, []string{"main", "r1", "api"}), domain}, list(ics...)...)
 		ops := [][]string{cfg}
@@ -195,20 +257,35 @@ func genRT(pr rtProfile) func(r *rand.Rand, w *W) [][]string {
 		}
 		facIDs := []string{"r"}
 		hid := 0
-		probe := func() {
-			// one witness per pool pattern with every interesting method
-			for _, p := range pool {
-				path := instantiate(r, p, valuePool[:8])
-				ops = append(ops, []string{"serve", pick(r, serveMethods), path})
-			}
-		}
+		var lastObs [][]string
 		observe := func() {
+			if pr.repeatObs && lastObs != nil {
+				ops = append(ops, lastObs...)
+			}
+			var obs [][]string
 			if pr.dumpEvery {
-				ops = append(ops, []string{"dump"}, []string{"routes"})
+				obs = append(obs, []string{"dump"}, []string{"routes"})
 			}
 			if pr.probeEvery {
-				probe()
+				// one simple witness per pool pattern
+				for _, p := range pool {
+					path, kv := witness(r, p)
+					obs = append(obs, append([]string{"serve", pick(r, serveMethods), path, "w", p}, list(kv...)...))
+				}
 			}
+			if pr.allowProbes {
+				for _, p := range pool {
+					path, kv := witness(r, p)
+					obs = append(obs, append([]string{"serve", "OPTIONS", path, "w", p}, list(kv...)...))
+					obs = append(obs, append([]string{"serve", pick(r, []string{"CONNECT", "PATCH", "BOGUS", "HEAD"}), path, "w", p}, list(kv...)...))
+				}
+				obs = append(obs, []string{"serve", "OPTIONS", "*"})
+			}
+			ops = append(ops, obs...)
+			lastObs = obs
+		}
+		if pr.allowProbes {
+			ops = append(ops, []string{"serve", "OPTIONS", "*"}, []string{"routes"})
 		}
 		if pr.literalFanout && r.Intn(2) == 0 {
 			base := pick(r, []string{"/", "/api/", "", "/{id}/"})
@@ -307,6 +384,9 @@ func genRT(pr rtProfile) func(r *rand.Rand, w *W) [][]string {
 				if pr.use {
 					mws = newMws(2)
 				}
+				if pr.syntaxOps && tgt == "r" {
+					ops = append(ops, []string{"syntax", p})
+				}
 				ops = append(ops, append([]string{"handle", tgt, p, "h" + itoa(hid)}, append(list(mws...), list(ms...)...)...))
 				if len(pool) < 24 {
 					pool = append(pool, p)
@@ -319,10 +399,15 @@ func genRT(pr rtProfile) func(r *rand.Rand, w *W) [][]string {
 			ops = append(ops, []string{"dump"}, []string{"routes"})
 		}
 		// probes
-		nProbe := 6 + r.Intn(14)
+		nProbe := 6 + r.Intn(14) + pr.nProbes
 		for i := 0; i < nProbe; i++ {
 			var path string
 			switch x := r.Intn(10); {
+			case x < 2 && len(pool) > 0:
+				wp := pick(r, pool)
+				wpath, kv := witness(r, wp)
+				ops = append(ops, append([]string{"serve", pick(r, serveMethods), wpath, "w", wp}, list(kv...)...))
+				continue
 			case x < 6 && len(pool) > 0:
 				path = instantiate(r, pick(r, pool), valuePool)
 				if r.Intn(4) == 0 {
@@ -375,6 +460,20 @@ func genRT(pr rtProfile) func(r *rand.Rand, w *W) [][]string {
 }
 
 func init() {
-	suites["RT"] = Suite{Gen: genRT(rtProfile{malformedPct: 10, removePct: 20, badMethodPct: 10, facades: true, use: true, urls: true,
-		rawPaths: true, maxRoutes: 10, literalFanout: true}), Exec: execRT}
+	full := rtProfile{malformedPct: 10, removePct: 20, badMethodPct: 10, facades: true, use: true, urls: true,
+		rawPaths: true, maxRoutes: 10, literalFanout: true, syntaxOps: true}
+	suites["RT"] = Suite{Gen: genRT(full), Exec: execRT}
+	suites["C01"] = Suite{Gen: genRT(rtProfile{removePct: 15, rawPaths: true, maxRoutes: 12, literalFanout: true, nProbes: 12}), Exec: execRT}
+	suites["C02"] = Suite{Gen: genRT(rtProfile{maxRoutes: 14, literalFanout: true, nProbes: 16, asciiOnly: true}), Exec: execRT}
+	suites["C03"] = Suite{Gen: genRT(rtProfile{removePct: 40, dumpEvery: true, probeEvery: true, facades: true, maxRoutes: 14,
+		literalFanout: true, badMethodPct: 5}), Exec: execRT}
+	suites["C04"] = Suite{Gen: genRT(rtProfile{removePct: 40, allowProbes: true, maxRoutes: 12, literalFanout: true, tracePct: 50,
+		badMethodPct: 5}), Exec: execRT}
+	suites["C05"] = Suite{Gen: genRT(rtProfile{malformedPct: 40, removePct: 25, badMethodPct: 20, facades: true, urls: true, rawPaths: true,
+		maxRoutes: 10, literalFanout: true, syntaxOps: true}), Exec: execRT}
+	suites["C09"] = Suite{Gen: genRT(rtProfile{removePct: 15, facades: true, use: true, maxRoutes: 12, probeEvery: true}), Exec: execRT}
+	suites["C10"] = Suite{Gen: genRT(rtProfile{malformedPct: 15, removePct: 10, urls: true, maxRoutes: 8, facades: true}), Exec: execRT}
+	suites["C17"] = Suite{Gen: genRT(rtProfile{malformedPct: 25, removePct: 10, badMethodPct: 45, dumpEvery: true, probeEvery: true,
+		allowProbes: true, repeatObs: true, maxRoutes: 9, literalFanout: true, syntaxOps: true}), Exec: execRT}
+	suites["C18"] = Suite{Gen: genRT(rtProfile{removePct: 20, tracePct: 70, allowProbes: true, use: true, maxRoutes: 8, rawPaths: true}), Exec: execRT}
 }
